@@ -409,12 +409,12 @@ func c9EncoderPurity(c *Ctx, rule string) {
 					}
 				}
 				// methods of the receiver itself that mutate it
-				if d == recv.Name() || d == recv.Name()+".jsonEncoder" {
+				if mayBe(args[0], func(v ssa.Value) bool { dd := Desc(v); return dd == recv.Name() || dd == recv.Name()+".jsonEncoder" }) {
 					switch f.Name() {
 					case "clone", "Clone", "EncodeEntry", "writeContext", "addSeparatorIfNecessary":
 					default:
 						if rn := f.Type().(*types.Signature).Recv(); rn != nil && strings.HasSuffix(TypeName(rn.Type()), "Encoder") {
-							bad = append(bad, "calls mutating method "+f.Name()+" on the shared receiver")
+							bad = append(bad, "calls mutating method "+f.Name()+" on a value that may be the shared receiver ("+d+")")
 						}
 					}
 				}
@@ -422,4 +422,43 @@ func c9EncoderPurity(c *Ctx, rule string) {
 		})
 		c.Check(len(bad) == 0, rule, fn.String(), "receiver-untouched", fn.Pos(), "the shared encoder is only read; all mutation happens on a per-call clone: %v", bad)
 	}
+}
+
+// mayBe: can v (through phis and multi-store locals) be a value satisfying pred?
+func mayBe(v ssa.Value, pred func(ssa.Value) bool) bool {
+	seen := map[ssa.Value]bool{}
+	var rec func(ssa.Value, int) bool
+	rec = func(x ssa.Value, d int) bool {
+		if x == nil || seen[x] || d > 10 {
+			return false
+		}
+		seen[x] = true
+		if pred(x) {
+			return true
+		}
+		switch y := x.(type) {
+		case *ssa.Phi:
+			for _, e := range y.Edges {
+				if rec(e, d+1) {
+					return true
+				}
+			}
+		case *ssa.ChangeType:
+			return rec(y.X, d+1)
+		case *ssa.MakeInterface:
+			return rec(y.X, d+1)
+		case *ssa.TypeAssert:
+			return rec(y.X, d+1)
+		case *ssa.UnOp:
+			if a, ok := y.X.(*ssa.Alloc); ok && y.Op == token.MUL && a.Referrers() != nil {
+				for _, r := range *a.Referrers() {
+					if st, ok := r.(*ssa.Store); ok && st.Addr == ssa.Value(a) && rec(st.Val, d+1) {
+						return true
+					}
+				}
+			}
+		}
+		return false
+	}
+	return rec(v, 0)
 }
